@@ -32,6 +32,7 @@ EXPLANATION = (
     "Numeric size of slippage and rounding to quote precision are not claimed."
     " C04.5 (shared with C05.5): the open-order index never loses an order that is still open."
     " C04.5 also (shared with C05.2): the matching loop is on every normal path of on_bar_event."
+    " C04.1 also: an order computes its fills from its own state (matching is not delegated to another order object)."
 )
 TRUSTED = ["CPython ast parser", "sa.absint weak-ordering interpreter (intervals over ranks; undetermined comparisons fork)",
            "assumption: prices > 0 and price impact >= 0 (asserted / validated in the code, see C04.3)"]
